@@ -148,7 +148,7 @@ def walk(root: str, segs: tuple[int, ...], string_sequences: bool, string_first_
         _, kind, arg = SEGS[si]
         if obj is UNDEF:
             break
-        on, segkind = type_name(obj), kind
+        on, segkind = type_name(obj), (arg if kind == "key" and arg in ("size", "first", "last") else kind)
         nxt = step(obj, kind, arg, string_sequences, string_first_and_last)
         if isinstance(nxt, tuple) and nxt and nxt[0] == "excluded":
             return {"result": nxt, "depth": depth, "on": on, "seg": segkind}
